@@ -50,8 +50,29 @@ class Ctx:
 
 
 def trivial_outcome(o):
-    """an outcome that says nothing about the op (absent / empty / error)"""
-    return o in ('ok =none', 'ok -', 'ok =false', 'err Other', 'ok [', 'ok []') or o.startswith('err ')
+    """an outcome that says nothing about the op (absent / empty / error), or that is no result at all (a panic, a dead or
+    killed process, a case the machinery lost)"""
+    return (o in ('ok =none', 'ok -', 'ok =false', 'err Other', 'ok [', 'ok []') or o.startswith('err ') or crash_outcome(o)
+            or core.infra_outcome(o))
+
+
+def crash_outcome(o):
+    """the call did not return: a panic, a process death (abort:<signal>), or no end within the deadline"""
+    return o == 'panic' or o.startswith('abort:') or o == 'timeout' or o == 'model-stack-overflow'
+
+
+# kinds (set by the generators) whose input is OUTSIDE the precondition of the property: corrupt JSONB buffers handed to a byte
+# walker ('malformed'), JSON text that does not parse handed to compare / convert_to_comparable ('invalid-text'), a key that is
+# not UTF-8 against a text document ('text-keys').  On these a panic of the implementation is not by itself a violation (the
+# model must show the same panic: the diff decides).  On EVERY other kind -- valid documents, and all inputs of the parsers and
+# decoders, whose properties say "never panics" -- a panic / death / hang of the implementation is a violation whatever the model
+# says.  A module may override with INVALID_INPUT_KINDS.
+INVALID_INPUT_KINDS = frozenset(['malformed', 'invalid-text', 'text-keys'])
+
+
+def infra_fail(msg):
+    print('INFRA-ERROR: ' + msg)
+    sys.exit(2)
 
 
 def run_both(ctx, cases):
@@ -110,7 +131,10 @@ def main(argv=None):
         core.log('[%s] coq build had failures: %s' % (pid, m[:5]))
     ps = core.props_status(pid)
     if not ps['ok']:
-        broken.append(('proof', 'Props/%s.v does not check: %s %s' % (pid, ps.get('failed_at', ''), ps.get('bad_axioms', ''))))
+        broken.append(('proof', 'Props/%s.v does not check: %s %s%s%s' % (
+            pid, ps.get('failed_at', ''), ps.get('bad_axioms', ''),
+            (' theorems without a following Print Assumptions: %s' % ' '.join(ps['missing_print_assumptions'])) if ps.get('missing_print_assumptions') else '',
+            (' %d Print Assumptions without an answer' % ps['print_assumptions_unanswered']) if ps.get('print_assumptions_unanswered') else '')))
     hy = core.hygiene()
     if hy:
         broken.append(('hygiene', '; '.join(hy[:5])))
@@ -145,17 +169,30 @@ def main(argv=None):
     mod.generate(ctx)
     impl, model = run_both(ctx, ctx.cases)
     ctx.impl, ctx.model = impl, model
+    invalid_kinds = getattr(mod, 'INVALID_INPUT_KINDS', INVALID_INPUT_KINDS)
 
     # generic correspondence diff
     evals = 0
+    crash_cases = set()
     for c in ctx.cases:
         io = impl.get(c.id, 'missing')
         evals += 1
+        # a case without an outcome, or one the harness could not read, is a failure of the machinery: never agreement
+        if core.infra_outcome(io):
+            infra_fail('case %s %s -> implementation side: %r' % (c.id, c.line[:300], io))
         if c.diff:
             mo = model.get(c.id, 'missing')
-            if mo.startswith('unknown-op') or mo.startswith('driver-failure') or io.startswith('unknown-op'):
-                print('INFRA-ERROR: case %s %s -> impl %r model %r' % (c.id, c.line, io, mo))
-                sys.exit(2)
+            if core.infra_outcome(mo) or mo == 'timeout' or mo.startswith('abort:'):
+                infra_fail('case %s %s -> model side: %r (impl %r)' % (c.id, c.line[:300], mo, io[:200]))
+        # the generic rule (independent of the model and of the per-property judge): the implementation panics, dies or hangs
+        # on an input that is not of an invalid-input kind
+        if crash_outcome(io) and c.kind not in invalid_kinds:
+            crash_cases.add(c.line)
+            ctx.violate('the implementation panics, dies or does not return on an input that is not corrupt (kind=%s)' % c.kind,
+                        case=c.line, kind=c.kind, observed=io, rule='generic: check.py')
+        if crash_outcome(io):
+            ctx.count('crash_outcomes_by_kind', '%s:%s' % (c.kind, io))
+        if c.diff:
             if hasattr(mod, 'normalise_outcome'):
                 io_n, mo_n = mod.normalise_outcome(c, io), mod.normalise_outcome(c, mo)
             else:
@@ -173,15 +210,31 @@ def main(argv=None):
         ctx.count('outcome_class', io.split(' ', 1)[0])
     # property-specific direct checks on the implementation (the "search")
     if hasattr(mod, 'judge'):
-        mod.judge(ctx)
+        try:
+            mod.judge(ctx)
+        except core.InfraError as ex:
+            infra_fail(str(ex))
+    ctx.stats['runner'] = dict(core.RUN_STATS)
 
     # 6. replay witnesses of open known findings
+    # a witness that fails must fail THE WAY THE FINDING DOES (`known_observed`, a regex): a finding recorded as a stack-overflow
+    # death that now shows as a panic, or a key collision that now shows as an error, is a different defect and is a violation
     for k in open_known:
         still = False
         for w in k.get('witness', []):
             o = core.run_one(core.HARNESS_BIN, 'w ' + w['case'])
+            if core.infra_outcome(o):
+                infra_fail('witness of known finding %s: %s -> %r' % (k['key'], w['case'][:200], o))
             if not re.fullmatch(w['property_requires'], o):
                 still = True
+                ko = w.get('known_observed')
+                if ko is None:
+                    ctx.violate('an open known finding has no `known_observed` pattern: its witness cannot be told from a new failure',
+                                case=w['case'][:300], observed=o[:300], finding=k['key'])
+                elif not re.fullmatch(ko, o):
+                    ctx.violate('the witness of an open known finding fails in a DIFFERENT way than the finding records: ' + k['what_fails'],
+                                case=w['case'][:300], expected='%s (what the property requires) or %s (the known finding)' % (w['property_requires'], ko),
+                                observed=o[:300], finding=k['key'])
         if still:
             known_lines.append('KNOWN-FINDING: property=%s %s [%s]' % (pid, k['what_fails'], k['key']))
         else:
@@ -193,7 +246,8 @@ def main(argv=None):
             continue
         for w in k.get('witness', []):
             o = core.run_one(core.HARNESS_BIN, 'w ' + w['case'])
-            evals_extra = 1
+            if core.infra_outcome(o):
+                infra_fail('witness of fixed finding %s: %s -> %r' % (k['key'], w['case'][:200], o))
             if not re.fullmatch(w['property_requires'], o):
                 ctx.violate('a repaired defect is back: ' + k['what_fails'], case=w['case'], expected=w['property_requires'], observed=o, finding=k['key'])
 
@@ -223,7 +277,7 @@ def main(argv=None):
         'trusted_base': mod.TRUSTED if hasattr(mod, 'TRUSTED') else [],
         'theorems': ps['theorems'], 'axioms_reported': ps['axioms'],
         'evaluations': evals, 'distinct_nontrivial': len(ctx.nontrivial),
-        'rule': getattr(mod, 'RULE', 'generated cases') + ' | counted: distinct case lines (op + arguments) whose implementation outcome is not none / empty / false / error',
+        'rule': getattr(mod, 'RULE', 'generated cases') + ' | counted: distinct case lines (op + arguments) whose implementation outcome is not none / empty / false / error / panic / abort / timeout',
         'samples': samples or ['(no cases)'],
         'broken_obligations': ['%s: %s' % b for b in broken],
         'known_class_hits': ctx.known_hits, 'stats': ctx.stats,
